@@ -53,6 +53,8 @@ DOMAINS = [
     dict(name="gen-zones", tu="domall1", rel=True, wrapper_of="zones"),
     dict(name="ref-zones", tu="domall1", rel=True, wrapper_of="zones"),
     dict(name="oct", tu="domall2", rel=True),
+    dict(name="oct-nr", tu="domall2", rel=True),       # oct.widen_restabilize = false
+    dict(name="zones-nr", tu="domall1", rel=True),     # zones.widen_restabilize = false
     dict(name="look-oct", tu="domall2", rel=True, asc_widen=True),
     dict(name="term-itv", tu="domall2", rel=True),
     dict(name="term-zones", tu="domall2", rel=True),
@@ -438,7 +440,8 @@ def run_domain(prop, tier, seed, dom, exe, n, known, shrink_ok, base_answers):
                 expected[l2] = list(zip(keep, a.split(" ; ")))
         examine(res, prop, dom, exe, stream, "inj-diff", il, ans2, diff_oracle_factory(expected), known, shrink_ok=False)
         # (iv) twins: a copy made by assignment and its original see the same operations
-        tl = X.twin_scripted(rng, 40 if tier == "quick" else 600) + [x for x in (X.twin(l, rng) for l in lines) if x]
+        tl = (X.twin_scripted(rng, 40 if tier == "quick" else 600) + X.lazy_join_scripted(rng, 40 if tier == "quick" else 600)
+              + [x for x in (X.twin(l, rng) for l in lines) if x])
         ta = run_cases(exe, name, tl, os.path.join(outd, stream + "-twin.cases"))
         examine(res, prop, dom, exe, stream, "twin", tl, ta, X.twin_oracle, known, shrink_ok=False)
         st["twin_cases"] = len(tl)
